@@ -18,14 +18,16 @@ life cycle: overlay INSTANCES come and go on the shared endpoint (spec: insts / 
   deep behaviours load/unload as well; exhaustive TLC run TunnelEndpoint_lc5.cfg; T: the random histories construct
   further real Community instances and run the real Community.unload().
 how a circuit ends: a circuit is taken down by Circuit.close() or by the real TunnelCommunity.remove_circuit() task,
-  with / without a reason text, remove_now, destroy (spec: CircuitClosing(i, way), CloseWays); remove_circuit leaves it in
-  the table until its remove_tunnel_delay timer fires (spec: due, RemovalDue; here: exactly that timer of the step loop
-  is fired, the clock moves to its deadline); Expire = the clock moves by max_time_inactive and the real do_remove()
-  takes the idle circuits down.  The abstract truth "taken down" is the harness's knowledge of the call it
-  made, what the object reports (Circuit.state) is compared with the implementation layer (st, StateFollowsClose).
+  with / without a reason text, remove_now, destroy (spec: CircuitClosing(i, way), CloseWays); remove_circuit leaves it
+  in the table until its remove_tunnel_delay timer fires (spec: due, RemovalDue; here: exactly that timer of the step
+  loop is fired, the clock moves to its deadline); Expire = the clock moves by max_time_inactive and the real
+  do_remove() takes the idle circuits down.  The abstract truth "taken down" is the harness's knowledge of the call it
+  made (for Expire: of the remove_circuit tasks do_remove started), what the object reports (Circuit.state) is
+  compared with the implementation layer (st, StateFollowsClose).
   R: every path of 3 events (and of 4 events with a due removal timer; thorough: every path of 4) that starts from a
-  ready circuit and has a take-down followed by an anonymised send (TunnelEndpoint_rm4.cfg; thorough also rm3.cfg), the d4 graph and the simulated behaviours take circuits down through the API as well;
-  exhaustive TLC run TunnelEndpoint_rm6.cfg; T: the random histories use every way and let removals become due.
+  ready circuit and has a take-down followed by an anonymised send (TunnelEndpoint_rm4.cfg; thorough also rm3.cfg);
+  the d4 graph and the simulated behaviours take circuits down through the API as well; exhaustive TLC run
+  TunnelEndpoint_rm6.cfg (thorough rm7); T: the random histories use every way, let removals become due and expire.
 A replay that leaves the implementation layer is handed to the abstract layer as well: only what the abstract layer
 rejects is a violation; a mere difference in behaviour the statement leaves open is reported as a note.
 """
@@ -331,8 +333,8 @@ class World:
             raise IndexError("no removal is pending")
         rid, t = pend[0]
         waiter = getattr(t, "_fut_waiter", None)
-        h = next((h for h in self.loop.timers() if waiter is not None and any(a is waiter for a in (h._args or ()))),  # noqa: SLF001
-                 None)
+        h = next((h for h in self.loop.timers()
+                  if waiter is not None and any(a is waiter for a in (h._args or ()))), None)  # noqa: SLF001
         if h is None:
             raise IndexError("the pending removal does not wait for a timer")
         before = {id(x) for x in self.loop._ready}  # noqa: SLF001
@@ -1183,8 +1185,8 @@ def run(tier, seed, replay=None):
                        "judged by the abstract layer. non-trivial = distinct replayed walks and distinct recorded "
                        "histories (each contains sends)")
     ctx.assumptions += ["the wrapped endpoint is a recording stub: what reaches its send() is 'the raw socket'",
-                        "circuits are brought to their states by add_hop() / close() / the real remove_circuit() task / "
-                        "table removal on real Circuit objects, not by a network handshake; of the timers only the "
+                        "circuits are brought to their states by add_hop() / close() / the real remove_circuit() "
+                        "task / table removal on real Circuit objects, not by a network handshake; of the timers only the "
                         "removal timers of remove_circuit() fire (the retry timers of create_circuit never do); the "
                         "periodic do_remove runs only as the Expire event, after which the harness restores the "
                         "circuit candidates it had configured",
